@@ -8,6 +8,7 @@ BRACE_ALPHABET = ["int", "f", "(", ")", "{", "}", ";", "\n", "=", "=>", "functio
 
 EXTRA_BASES = {
     "Python": [
+        "def half(n):\n    return n // 2\n\ndef quarter(n):\n    x = n // 4  # q\n    return x // 1\n",   # `//` starts a comment next door
         'def f():\n    """doc\n    string"""\n',
         "class K:\n    @staticmethod\n    def m(a, b=(1, 2)):\n        return a\n\n    async def n(self):\n        pass\nx = lambda q: q\n",
         "def g(a,\n      b):\n    if a:\n        return b\n    else:\n        return a \\\n            + b\n",
@@ -20,7 +21,8 @@ EXTRA_BASES = {
     "C++": ["namespace n {\nclass K {\n public:\n  K() : a(1) {}\n  int m() const { return a; }\n  int a;\n};\n}\ntemplate <typename T> T id(T t) { return t; }\n"],
     "C#": ["using System;\nnamespace N {\n  class K {\n    public int P { get; set; }\n    public int M(int a) => a;\n    void F() { Action a = () => { }; }\n  }\n}\n"],
     "Java": ["package p;\nclass K {\n  void f(int a) throws E, F {\n    run(new R() {\n      public void g() { }\n    });\n  }\n  abstract int h();\n  record P(int x) { }\n}\n"],
-    "JavaScript": ["const handler = (wrap)((event) => {\n  return event;\n});\nconst twice = (compose)(x => x * 2);\nconst third = (a)(b)((c) => (d) => {\n  return d;\n});\nfunction plain(a) {\n  return a;\n}\n",
+    "JavaScript": ["function type(a) {\n  return a;\n}\nfunction declare(b) {\n  return b;\n}\nfunction of(c) {\n  return c;\n}\n",   # names that are keywords next door (TypeScript)
+                   "const handler = (wrap)((event) => {\n  return event;\n});\nconst twice = (compose)(x => x * 2);\nconst third = (a)(b)((c) => (d) => {\n  return d;\n});\nfunction plain(a) {\n  return a;\n}\n",
                    "const f = (a, b) => {\n  return a;\n};\nconst g = async (cb = () => 0) => {\n  await cb();\n};\nclass K {\n  m(a) { return `t ${a}\n  x`; }\n}\n"],
     "TypeScript": ["const handler = (wrap)((event: Event) => {\n  return event;\n});\nconst twice = (compose)((x: number) => x * 2);\nfunction plain(a: number): number {\n  return a;\n}\n",
                    "function f(a: number): number {\n  return a;\n}\nconst g = (a: string): void => {\n};\ninterface I { m(a: number): void; }\nexport class K<T> {\n  m(a: T): T { return a; }\n}\n"],
